@@ -1136,6 +1136,46 @@ func specAsFatal(e any) *fatalError { p, _ := e.(*fatalError); return p }
 //@   requires vm.fn != nil && int(i) < len(vm.fn.FieldIndexes)
 //@   panicpost panicval == any(errNilPointer)
 
+// Indirect register stores (`*p = v` in interpreted code): assigning through a
+// nil pointer must raise errNilPointer - a runtimeError, reported as a
+// *PanicError - exactly as the indirect loads do, and never let a setter of
+// the reflect package panic on the zero Value that Elem returns for a nil
+// pointer: that panic is not a runtime error and would reach the host (C05).
+//@ func (*VM).setIntIndirect
+//@   props C05
+//@   panics allowed
+//@   opt reflectpanics checked
+//@   requires int(vm.fp[3]+Addr(r)) < len(vm.regs.general)
+//@   panicpost panicval == any(errNilPointer)
+
+//@ func (*VM).setBoolIndirect
+//@   props C05
+//@   panics allowed
+//@   opt reflectpanics checked
+//@   requires int(vm.fp[3]+Addr(r)) < len(vm.regs.general)
+//@   panicpost panicval == any(errNilPointer)
+
+//@ func (*VM).setFloatIndirect
+//@   props C05
+//@   panics allowed
+//@   opt reflectpanics checked
+//@   requires int(vm.fp[3]+Addr(r)) < len(vm.regs.general)
+//@   panicpost panicval == any(errNilPointer)
+
+//@ func (*VM).setStringIndirect
+//@   props C05
+//@   panics allowed
+//@   opt reflectpanics checked
+//@   requires int(vm.fp[3]+Addr(r)) < len(vm.regs.general)
+//@   panicpost panicval == any(errNilPointer)
+
+//@ func (*VM).setGeneralIndirect
+//@   props C05
+//@   panics allowed
+//@   opt reflectpanics checked
+//@   requires int(vm.fp[3]+Addr(r)) < len(vm.regs.general)
+//@   panicpost panicval == any(errNilPointer)
+
 // PanicError accessors.
 //@ func (*PanicError).Next
 //@   props C12
